@@ -2213,7 +2213,7 @@ func (fc *fnCtx) execSlice(st *State, x *ssa.Slice) {
 		fc.oblige(st, "slice", "", g, "slice bounds in range", x.Pos(), false)
 		fc.assume(st, g)
 		sub := fc.setVal(x, fmt.Sprintf("(mkslice (sl.base %s) (+ (sl.off %s) %s) (- %s %s) (- %s %s))", base.T, base.T, lo, hi, lo, mx, lo))
-		if lo != "0" && (!isAtom(base.T) || fc.defs.byName[base.T] != nil || strings.HasPrefix(base.T, "c.") || strings.HasPrefix(base.T, "in.")) && !fc.specMode {
+		if (lo != "0" || x.High != nil) && (!isAtom(base.T) || fc.defs.byName[base.T] != nil || strings.HasPrefix(base.T, "c.") || strings.HasPrefix(base.T, "in.")) && !fc.specMode {
 			// positions of the sub-slice are positions of the slice, shifted (creates the term
 			// that lets quantified facts about the whole slice fire on the sub-slice)
 			fc.assume(st, fmt.Sprintf("(forall ((i Int)) (! (= (sl.ix %s i) (sl.ix %s (+ i %s))) :pattern ((sl.ix %s i))))", sub.T, base.T, lo, sub.T))
